@@ -320,6 +320,31 @@ fn c08(tier: &str) -> i32 {
         sq.extend(families::c01_quick());
     }
     jobs.extend(jobs_from(sq).into_iter().map(|j| j.backend(lab::Bk::Sqlite)));
+    // the Nostr id is rotated on a branch that loses; the winner reaches the member in a wrapper that carries the rotated id
+    // (under the old id it would no longer be routed): after the rollback only the id in force resolves to the group
+    {
+        fn rewrapped_winner_hook(w: &mut scenario::World) {
+            let Some(win) = w.pool.iter().position(|p| p.kind == scenario::EvKind::Commit && p.node.is_empty() && p.child.as_ref().map(|c| w.spine.contains(c)).unwrap_or(false)) else { return };
+            // the id in force on the losing branch
+            let rotated: Option<[u8; 32]> = w.nodes.iter().filter(|(p, _)| p.len() == 1 && !w.spine.contains(*p)).filter_map(|(_, n)| n.record["nostr_group_id"].as_str().and_then(|h| hex::decode(h).ok()).and_then(|b| b.try_into().ok())).next();
+            let Some(y) = rotated else { return };
+            let src = w.pool[win].clone();
+            if let Ok(ev) = adversary::wrapper_with_content(&src.event.content, y, src.event.created_at.as_secs() - 1) {
+                w.pool.push(scenario::PoolEvent { label: format!("{}-rewrapped-under-the-rotated-id", src.label), event: ev, kind: scenario::EvKind::Commit, act: src.act.clone(), author: src.author.clone(), node: vec![], child: src.child.clone(), ts: src.ts, rumor: None });
+                let idx = w.pool.len() - 1;
+                w.settle_order.push(idx);
+            }
+        }
+        for (sc, _) in families::c08_quick().into_iter().filter(|(s, _)| s.name == "rotate-loses") {
+            for bk in [lab::Bk::Memory, lab::Bk::Sqlite] {
+                let mut j = E1Job::new(sc.clone()).backend(bk);
+                j.regimes = vec![explore::Regime::Causal];
+                j.world_hook = Some(rewrapped_winner_hook);
+                j.members = Some(vec!["Z".into(), "C".into()]);
+                jobs.push(j);
+            }
+        }
+    }
     // a member is removed, the group is renamed and its Nostr id rotated while it is away, then it is invited again:
     // the record it ends with must mirror the MLS state it joined
     {
